@@ -106,7 +106,8 @@ class C14(Prop):
         if self.phases:
             self.phases.mark("extra checks")
         budget = rc.ExtraBudget(tier, 30.0)
-        res = [program_timeout_sources(tier), cli_source(tier), real_pending_stdin(tier), real_timeouts(tier, budget)]
+        res = [program_timeout_sources(tier), cli_source(tier), stdin_drain_rule(tier), real_pending_stdin(tier),
+               real_timeouts(tier, budget)]
         if self.phases:
             self.phases.mark("end")
             res.append(self.phases.entry())
@@ -270,101 +271,293 @@ def pending_small_cases():
                    "warn": False, "async": False, "start_error": None, "never_eof": [], "timeout": 5}
 
 
+class _TimedQueue:
+    """in_stream with input queued: a StringIO of n characters (`endless_for` seconds of 'y' instead: an
+    input that never runs dry, like `yes | inv ...`, cut off so that the check ends) which notes when each
+    character is taken"""
+
+    def __init__(self, n=None, endless_for=None):
+        import io
+        self.total = n
+        self.buf = io.StringIO("x" * (n or 0))
+        self.t_end = None if endless_for is None else time.time() + endless_for
+        self.times = []
+
+    def read(self, size=-1):
+        if self.t_end is not None:
+            s = "y" if time.time() < self.t_end else ""
+        else:
+            s = self.buf.read(size)
+        if s:
+            self.times.append(time.time())
+        return s
+
+    def describe(self):
+        return "like io.StringIO('x' * %d)" % self.total if self.total is not None else \
+            "read() always returns 'y' (for 4 s)"
+
+
+PROMPT = 1.5     # s: the report must follow the kill / the command's end within this, whatever is queued
+FOLLOW = 1.0     # s: a late report counts as "late because of the drain" only if it follows the drain's end this closely
+
+
+def _drain_verdict(stream, t_ref, report_at, pending):
+    """(late, attributable): the report came more than PROMPT after t_ref; and the only reason is F-C14e --
+    input was pending at t_ref, the stdin worker was still taking queued input after the deadline and the
+    report followed the last character within FOLLOW"""
+    late = report_at - t_ref > PROMPT
+    if not late:
+        return False, False
+    after = [t for t in stream.times if t > t_ref + PROMPT]
+    return True, bool(pending and after and report_at - stream.times[-1] <= FOLLOW)
+
+
 def real_pending_stdin(tier):
-    """The timer fires while the stdin-mirroring worker still has input to forward.  A non-terminal in_stream
-    (StringIO, file, pipe) is mirrored one character per input_sleep (10 ms), so N characters keep that worker
-    busy for at least N/100 s: with N = 100 and a timeout of 0.3 s there is input pending at the expiry however
-    the threads are scheduled (recorded: the stream position at the moment kill() runs).  Whatever kill() does
-    to reach the command, the outcome is the timed-out failure with the output so far -- not a worker error --
-    and a command that finishes first is left alone although input is still queued."""
-    import io
+    """The timer fires (or the command finishes) while the stdin-mirroring worker still has input to forward.
+    A non-terminal in_stream is mirrored one character per input_sleep (10 ms), so N characters keep that
+    worker busy for at least N/100 s: with a timeout of 0.3 s there is input pending at the expiry however the
+    threads are scheduled (recorded: what the worker had taken when kill() ran).  Judged at full strength:
+    CommandTimedOut with the output so far, one kill, nothing left behind, and PROMPTLY -- within PROMPT s of
+    the kill, a bound that does not depend on how much input is queued.  The unchanged code fails the last
+    point (F-C14e: the worker forwards everything that is queued before it ends, and is joined without a
+    timeout); a run that is late ONLY for that reason is attributed to the finding, anything else is not."""
     from invoke.runners import Local
     strict = tier == "thorough"
     fails, evals, inconclusive, lat = [], 0, 0, []
-    limit = 8.0 if strict else 15.0
-    n_in = 100
 
-    def scenario(cmd, n, **kw):
-        stream = io.StringIO("x" * n)
+    def scenario(cmd, stream, **kw):
         kills = []
 
         class Rec(Local):
             def kill(self):
-                kills.append(stream.tell())      # characters the worker has taken when the kill happens
+                kills.append((time.time(), len(stream.times)))     # when, and what the worker had taken by then
                 super().kill()
-        return rc.run_real(cmd, hide=True, in_stream=stream, runner_cls=Rec, bound=25, **kw), kills
+        t0 = time.time()
+        return rc.run_real(cmd, hide=True, in_stream=stream, runner_cls=Rec, bound=25, **kw), kills, t0
 
-    variants = [{}, {"warn": True}, {"asynchronous": True}, {"pty": True}]
+    expiry = [(300, {}), (300, {"pty": True}), (100, {"warn": True}), (100, {"asynchronous": True})]
     if strict:
-        variants += [{"pty": True, "warn": True}, {"asynchronous": True, "join_delay": 0.8},
-                     {"asynchronous": True, "pty": True}, {"timeout": 0.05}]
-    for _ in range(3 if strict else 1):
-        for v in variants:
-            evals += 1
-            kw = dict({"timeout": 0.3}, **v)
-            cmd = "echo started; exec sleep 5"
-            r, kills = scenario(cmd, n_in, **kw)
-            case = dict({"cmd": cmd, "in_stream": "io.StringIO('x' * %d)" % n_in, "hide": True}, **kw)
-            tex = ("; worker errors: %s" % ", ".join(r["thread_excs"])) if r.get("thread_excs") else ""
-            if r["hang"]:
-                fails.append({"case": case, "what": "run() still blocked 25 s after a timeout of %s s with input "
-                                                    "pending (then: %s)" % (kw["timeout"], r["outcome"])})
-                continue
-            if r["outcome"] != "CommandTimedOut":
-                fails.append({"case": case, "what": "the timeout expired while %s of %d input characters were still "
-                                                    "to be forwarded: outcome %s after %.1fs instead of "
-                                                    "CommandTimedOut%s" % (
-                                                        (n_in - kills[0]) if kills else "?", n_in, r["outcome"],
-                                                        r["elapsed"], tex)})
-                continue
-            lat.append(r["elapsed"])
-            if len(kills) != 1:
-                fails.append({"case": case, "what": "kill() ran %d times" % len(kills)})
-            elif kills[0] >= n_in:
-                inconclusive += 1                 # nothing was pending after all: says nothing, not counted as a pass
-                evals -= 1
-            if "started" not in (r["stdout"] or ""):
-                fails.append({"case": case, "what": "timed-out failure does not carry the output so far: %r"
-                                                    % (r["stdout"],)})
-            if getattr(r["exc"], "timeout", None) != kw["timeout"]:
-                fails.append({"case": case, "what": "CommandTimedOut.timeout is %r" % (getattr(r["exc"], "timeout", None),)})
-            if r["elapsed"] > limit:
-                fails.append({"case": case, "what": "reported only after %.1fs" % r["elapsed"]})
-            if r["child_state"] is not None:
-                fails.append({"case": case, "what": "killed child not reaped (%s)" % r["child_state"]})
-            if r["alive_after"] or r["timer_alive"]:
-                fails.append({"case": case, "what": "left behind: workers %s, timer alive %s"
-                                                    % (r["alive_after"], r["timer_alive"])})
-    # the command finishes first while input is still queued: normal outcome, nothing killed, timer disarmed
-    timely = [("sleep 0.2; echo done", n_in, {}, "Result", "done\n", 0),
+        vs = [{}, {"warn": True}, {"asynchronous": True}, {"pty": True}, {"pty": True, "warn": True},
+              {"asynchronous": True, "join_delay": 0.8}, {"asynchronous": True, "pty": True}, {"timeout": 0.05}]
+        expiry = [(300, v) for v in vs] * 2 + [(100, {}), (600, {}), (None, {})]
+    for n_in, v in expiry:
+        evals += 1
+        kw = dict({"timeout": 0.3}, **v)
+        cmd = "echo started; exec sleep 8"
+        stream = _TimedQueue(n_in) if n_in is not None else _TimedQueue(endless_for=4.0)
+        r, kills, t0 = scenario(cmd, stream, **kw)
+        case = dict({"cmd": cmd, "in_stream": stream.describe(), "hide": True}, **kw)
+        tex = ("; worker errors: %s" % ", ".join(r["thread_excs"])) if r.get("thread_excs") else ""
+        if r["hang"]:
+            fails.append({"case": case, "what": "run() still blocked 25 s after a timeout of %s s with input "
+                                                "pending (then: %s)" % (kw["timeout"], r["outcome"])})
+            continue
+        if r["outcome"] != "CommandTimedOut":
+            left = "?" if not kills else "unboundedly many" if n_in is None else str(n_in - kills[0][1])
+            fails.append({"case": case, "what": "the timeout expired while %s input characters were still to be "
+                                                "forwarded: outcome %s after %.1fs instead of CommandTimedOut%s"
+                                                % (left, r["outcome"], r["elapsed"], tex)})
+            continue
+        wrong = []
+        if len(kills) != 1:
+            wrong.append("kill() ran %d times" % len(kills))
+        if "started" not in (r["stdout"] or ""):
+            wrong.append("the timed-out failure does not carry the output so far: %r" % (r["stdout"],))
+        if getattr(r["exc"], "timeout", None) != kw["timeout"]:
+            wrong.append("CommandTimedOut.timeout is %r" % (getattr(r["exc"], "timeout", None),))
+        if r["child_state"] is not None:
+            wrong.append("killed child not reaped (%s)" % r["child_state"])
+        if r["alive_after"] or r["timer_alive"]:
+            wrong.append("left behind: workers %s, timer alive %s" % (r["alive_after"], r["timer_alive"]))
+        if kills and kills[0][0] - t0 > kw["timeout"] + PROMPT:
+            wrong.append("kill() ran only %.1fs after the start" % (kills[0][0] - t0))
+        if wrong:
+            fails.append({"case": case, "what": "; ".join(wrong)})
+            continue
+        t_kill, taken = kills[0]
+        pending = None if n_in is None else n_in - taken
+        if pending == 0:
+            inconclusive += 1                 # nothing was pending after all: says nothing, not counted as a pass
+            evals -= 1
+        report_at = t0 + r["elapsed"]
+        lat.append("%s: %.1f" % (n_in if n_in is not None else "endless(4 s)", report_at - t_kill))
+        late, drain = _drain_verdict(stream, t_kill, report_at, pending is None or pending > 0)
+        if late:
+            what = ("timeout %s s, %s characters still queued at the kill: CommandTimedOut raised only %.1f s after "
+                    "the kill (bound %.1f s, whatever is queued)" % (
+                        kw["timeout"], "unboundedly many" if pending is None else pending, report_at - t_kill, PROMPT))
+            if drain:
+                fails.append({"case": case, "finding": "F-C14e",
+                              "what": what + " -- the stdin worker went on forwarding queued input to the dead "
+                                             "command until %.1f s after the kill" % (stream.times[-1] - t_kill)})
+            else:
+                fails.append({"case": case, "what": what + "; not explained by queued input"})
+    # the command finishes first while input is still queued: normal outcome, nothing killed, timer disarmed,
+    # and the result is there promptly
+    timely = [("sleep 0.2; echo done", 300, {}, "Result", "done\n", 0),
               ("cat; echo done", 30, {}, "Result", "x" * 30 + "done\n", 0)]
     if strict:
-        timely += [("sleep 0.2; echo done; exit 3", n_in, {}, "UnexpectedExit", "done\n", 3),
-                   ("sleep 0.2; echo done; exit 3", n_in, {"warn": True}, "Result", "done\n", 3),
-                   ("sleep 0.2; echo done", n_in, {"asynchronous": True}, "Result", "done\n", 0)]
+        timely += [("sleep 0.2; echo done; exit 3", 300, {}, "UnexpectedExit", "done\n", 3),
+                   ("sleep 0.2; echo done; exit 3", 300, {"warn": True}, "Result", "done\n", 3),
+                   ("sleep 0.2; echo done", 300, {"asynchronous": True}, "Result", "done\n", 0),
+                   ("sleep 0.2; echo done", 300, {"pty": True}, "Result", "x" * 20 + "done\r\n", 0)]
     for cmd, n, v, want, out, code in timely:
         evals += 1
         kw = dict({"timeout": 20}, **v)
-        r, kills = scenario(cmd, n, **kw)
-        case = dict({"cmd": cmd, "in_stream": "io.StringIO('x' * %d)" % n, "hide": True}, **kw)
-        if r["outcome"] != want or r["stdout"] != out or r["exited"] != code:
+        stream = _TimedQueue(n)
+        r, kills, t0 = scenario(cmd, stream, **kw)
+        case = dict({"cmd": cmd, "in_stream": stream.describe(), "hide": True}, **kw)
+        got_out = r["stdout"]
+        if v.get("pty") and got_out is not None:
+            out, got_out = "done\r\n", got_out[got_out.find("done"):]     # the pty echoes what was typed so far
+        if r["outcome"] != want or got_out != out or r["exited"] != code:
             fails.append({"case": case, "what": "a command that finishes well before its timeout, input still queued: "
                                                 "outcome %s after %.1fs, stdout %r, exited %r (expected %s, %r, %r)"
                                                 % (r["outcome"], r["elapsed"], r["stdout"], r["exited"], want, out, code)})
-        elif kills or r["timer_alive"]:
-            fails.append({"case": case, "what": "kill() calls %r, timer alive afterwards %s" % (kills, r["timer_alive"])})
-        elif r["child_state"] is not None or r["alive_after"]:
+            continue
+        if kills or r["timer_alive"]:
+            fails.append({"case": case, "what": "kill() calls %d, timer alive afterwards %s" % (len(kills), r["timer_alive"])})
+            continue
+        if r["child_state"] is not None or r["alive_after"]:
             fails.append({"case": case, "what": "left behind: child %s, workers %s" % (r["child_state"], r["alive_after"])})
+            continue
+        report_at = t0 + r["elapsed"]
+        if cmd.startswith("cat"):
+            t_ref, pending = (stream.times[-1] if stream.times else t0), False    # ends when its input does
+        else:
+            t_ref = t0 + 0.2
+            pending = len([t for t in stream.times if t <= t_ref]) < n
+        late, drain = _drain_verdict(stream, t_ref, report_at, pending)
+        if late:
+            what = ("the command had finished after about %.1f s, %s: its %s was delivered only %.1f s later (bound "
+                    "%.1f s)" % (t_ref - t0, "input still queued" if pending else "no input queued", want,
+                                 report_at - t_ref, PROMPT))
+            if drain:
+                fails.append({"case": case, "finding": "F-C14e",
+                              "what": what + " -- the stdin worker went on forwarding queued input to the finished "
+                                             "command until %.1f s after its end" % (stream.times[-1] - t_ref)})
+            else:
+                fails.append({"case": case, "what": what + "; not explained by queued input"})
     return {"name": "real-timeout-pending-stdin", "evaluations": evals, "failures": fails,
-            "note": "real children through Local with in_stream=StringIO of %d characters (mirrored one per 10 ms): "
-                    "'exec sleep 5' under timeout 0.3 is killed while input is still pending -> CommandTimedOut with "
-                    "the output so far, one kill, child reaped, no worker error (plain, warn, asynchronous, pty%s); "
-                    "commands that finish first with input still queued -> normal outcome, no kill, timer gone.  "
-                    "Observed report times %s s (the stdin worker forwards ALL queued input, 10 ms per character, "
-                    "before it ends and run() joins it without a timeout: the report is delayed accordingly)%s"
-                    % (n_in, ", ... x3" if strict else "", ", ".join("%.1f" % x for x in lat),
+            "note": "real children through Local with in_stream = N queued characters (mirrored one per 10 ms): "
+                    "'exec sleep 8' under timeout 0.3 is killed while input is still pending -> CommandTimedOut with "
+                    "the output so far, one kill, child reaped, no worker error, and promptly = within %.1f s of the "
+                    "kill whatever N is (plain, pty, warn, asynchronous%s); commands that finish first with input "
+                    "still queued -> normal outcome, no kill, timer gone, result within %.1f s of the end.  Observed "
+                    "kill-to-report times by N: %s s; late-only-because-of-the-drain runs are attributed to F-C14e "
+                    "(worker still taking queued input after the deadline, report within %.1f s of the last "
+                    "character), everything else is unattributed%s"
+                    % (PROMPT, ", ... x2, N = 100/300/600/endless" if strict else "", PROMPT, ", ".join(lat), FOLLOW,
                        "; %d runs inconclusive (no input pending at expiry), not counted" % inconclusive
                        if inconclusive else "")}
+
+
+class _DCase:
+    id = "C14"
+    corr_module = "Corr.C14Corr"
+    case_type = "dcase"
+    preds = ("dcorr",)
+    shard_size = 400
+
+
+def stdin_drain_rule(tier):
+    """The exit rule of the stdin worker's loop (Model/StdinDrainModel.v) against the real Runner.handle_stdin,
+    without threads or timing: handle_stdin is called directly on a scripted input stream (ScriptedIn: readiness
+    and reads answered from a list data / empty / not-ready), program_finished is set inside the readiness probe
+    of a chosen iteration; observed: iterations made from that one on (= probes), units written to the command's
+    stdin meanwhile, whether its stdin was closed.  Judged in Coq by Corr.C14Corr.dcorr."""
+    import itertools
+    import threading
+    from invoke import Context
+    from invoke.runners import Runner
+    rc.install()
+
+    class Sink(Runner):
+        input_sleep = 0
+
+        def __init__(self):
+            super().__init__(Context())
+            self.using_pty = False
+            self.encoding = "utf-8"
+            self.written = []
+            self.closes = 0
+
+        def _write_proc_stdin(self, data):
+            self.written.append(bytes(data))
+
+        def close_proc_stdin(self):
+            self.closes += 1
+
+    class Probe:
+        def __init__(self, runner, pre, after):
+            self.runner, self.results, self.finish_at = runner, list(pre) + list(after), len(pre)
+            self.probes, self.cur, self.fwd_before = 0, None, None
+            self.cap = len(self.results) + 50
+
+        def in_ready(self):
+            i = self.probes
+            self.probes += 1
+            if i >= self.cap:
+                raise rc.HarnessAbort()
+            if i == self.finish_at:
+                self.fwd_before = len(self.runner.written)
+                self.runner.program_finished.set()
+            self.cur = self.results[i] if i < len(self.results) else "empty"
+            return self.cur != "notready"
+
+        def read_in(self, mode):
+            return "x" if self.cur == "data" else ""
+
+    alpha = ("data", "empty", "notready")
+    depth = 4 if tier == "thorough" else 3
+    afters = [list(t) for k in range(depth + 1) for t in itertools.product(alpha, repeat=k)]
+    for n in ((10, 50, 200, 1000) if tier == "thorough" else (10, 50, 200)):
+        afters += [["data"] * n, ["data"] * n + ["notready", "data"], ["data"] * n + ["empty"]]
+    pres = ([], ["data"], ["notready"], ["data", "notready", "data"])
+    items, terms, fails = [], [], []
+    RD = {"data": "RData", "empty": "REmpty", "notready": "RNotReady"}
+    for pre in pres:
+        for after in afters:
+            runner = Sink()
+            probe = Probe(runner, pre, after)
+            box = {}
+
+            def call(runner=runner, probe=probe, box=box):
+                try:
+                    runner.handle_stdin(rc.ScriptedIn(probe, "text"), None, echo=False)
+                    box["ok"] = True
+                except BaseException as e:   # noqa
+                    box["exc"] = type(e).__name__
+            t = threading.Thread(target=call, daemon=True)
+            t.start()
+            t.join(10)
+            nd = next((i for i, x in enumerate(after) if x != "data"), len(after))
+            short = {"before_finish": pre, "from_finish_on": after if len(after) <= 8 else
+                     "%d x data, then %r" % (nd, after[nd:])}
+            if t.is_alive() or "exc" in box:
+                fails.append({"case": short, "what": "handle_stdin did not leave its loop after program_finished was "
+                                                     "set (%s after %d iterations)" % (box.get("exc", "still running"),
+                                                                                       probe.probes)})
+                continue
+            items.append(short)
+            terms.append("(mkd %s %s %s %s)" % (cases.ct.lst([RD[x] for x in after]),
+                                                cases.ct.n(probe.probes - probe.finish_at),
+                                                cases.ct.n(len(runner.written) - probe.fwd_before),
+                                                cases.ct.b(runner.closes > 0)))
+            items[-1] = dict(short, iterations=probe.probes - probe.finish_at,
+                             forwarded=len(runner.written) - probe.fwd_before, closed=runner.closes > 0)
+    res = core.eval_shards(_DCase, terms, "drain")
+    for case, r in zip(items, res):
+        if not r["dcorr"]:
+            fails.append({"case": case, "what": "the stdin worker's loop after program_finished differs from the model "
+                                                "(leave by the first read that is not input; one iteration per queued "
+                                                "unit, each forwarded)"})
+    return {"name": "stdin-drain-rule", "evaluations": len(pres) * len(afters), "failures": fails,
+            "note": "real Runner.handle_stdin called directly on a scripted stream, program_finished set during a "
+                    "chosen iteration; all read sequences over {data, empty, not ready} up to length %d after that "
+                    "moment (x 4 histories before it) and queues of up to %d units: iterations / units forwarded / "
+                    "stdin closed compared with Model.StdinDrainModel by Corr.C14Corr.dcorr (F-C14e: the count "
+                    "grows with the queue -- C14_prompt_pending_refuted)" % (depth, 1000 if tier == "thorough" else 200)}
 
 
 class _PCase:
